@@ -285,6 +285,7 @@ func runC11(c *Ctx) {
 
 	// ---- (8) SUBDIR-REMAP-TOTAL
 	c11SubdirRemap(c, pkFI)
+	c11ResolverKept(c, pkImg)
 
 	// ---- (9) shared rules on the code this property runs through: the image-level --path/--exclude-path filter must
 	// not depend on map iteration order (R-MAPORDER of C02, on package bufimage), and the image writer must report a
